@@ -687,6 +687,14 @@ func (c *FnCtx) callExtern(st *State, name string, call *ast.CallExpr) []Val {
 		evalArgs()
 		return nil
 	case "NodesInterface.ForEach", "CachedLeavesInterface.ForEach":
+		if len(call.Args) == 1 {
+			if fl, ok := call.Args[0].(*ast.FuncLit); ok {
+				c.foreachCtr++
+				if ct := c.prog.Contracts.ByKey[c.key]; ct != nil && ct.Foreach[c.foreachCtr] != nil {
+					return c.foreachLoop(st, call, fl, c.foreachCtr, ct.Foreach[c.foreachCtr])
+				}
+			}
+		}
 		// the callback may assign captured variables: havoc them
 		for _, a := range call.Args {
 			if fl, ok := a.(*ast.FuncLit); ok {
@@ -786,4 +794,85 @@ func (c *FnCtx) makeScalarMap(t types.Type) (Val, bool) {
 	es := BV(vw)
 	srt := Sort{K: KArray, Elem: &es}
 	return SV{c.define("map", srt, fmt.Sprintf("((as const %s) %s)", srt.String(), bvInt(0, vw))), srt, vs}, true
+}
+
+
+// foreachLoop executes X.ForEach(func(k, v) error {...}) as a loop over an unknown number of elements, cut at the
+// invariants given by `foreach N: invariant E`: the invariants are asserted before the call, everything the callback may
+// assign is havocked, the invariants are assumed, the callback body is executed once on arbitrary arguments; every
+// `return` of the callback with a nil error must re-establish the invariants (the iteration continues), every return
+// with a non-nil error leaves the loop with that error as ForEach's result.  The assumed contract of ForEach is exactly
+// that: it calls the function for some elements in some order, stops at the first non-nil error and returns it, and
+// returns nil otherwise (the two implementations in mappollard.go do so; listed as an assumption).
+func (c *FnCtx) foreachLoop(st *State, call *ast.CallExpr, fl *ast.FuncLit, n int, spec *LoopSpec) []Val {
+	pos := call.Pos()
+	c.assumptions["ForEach(callback) calls the callback for some elements, stops at the first non-nil error and returns it, returns nil otherwise"] = true
+	for k, inv := range spec.Invariants {
+		g := c.evalClause(st, inv, nil)
+		c.obligeNamed(st, fmt.Sprintf("inv-entry.foreach%d.%d", n, k+1), "inv-entry", pos, g, "callback invariant holds before ForEach: "+inv.Text)
+	}
+	objs, cells := c.assignedIn(st, fl.Body)
+	head := st.clone()
+	c.havoc(head, objs, cells, fmt.Sprintf("fe%d", n))
+	for _, inv := range spec.Invariants {
+		c.assume(head, c.evalClause(head, inv, nil))
+	}
+	more := c.fresh(fmt.Sprintf("foreach%d_more", n), SBool) // another element is visited / the iteration is over
+	in := head.clone()
+	in.pc = c.pcAnd(head, more)
+	for _, f := range fl.Type.Params.List {
+		for _, id := range f.Names {
+			if o := c.prog.Info.ObjectOf(id); o != nil {
+				v, wf := c.freshVal(o.Type(), id.Name)
+				for _, w := range wf {
+					c.assume(in, w)
+				}
+				in.env[o] = v
+			}
+		}
+	}
+	// run the callback body; its returns are captured instead of being returns of the function under verification
+	nr := len(c.rets)
+	savedTypes, savedObjs, savedIn := c.resTypes, c.resObjs, c.inReturn
+	c.resTypes = nil
+	if fl.Type.Results != nil {
+		for _, f := range fl.Type.Results.List {
+			c.resTypes = append(c.resTypes, c.prog.Info.TypeOf(f.Type))
+		}
+	}
+	c.resObjs = nil
+	c.execBlock(in, fl.Body.List)
+	capSt, capVals := c.rets[nr:], c.retVals[nr:]
+	c.rets, c.retVals = c.rets[:nr:nr], c.retVals[:nr:nr]
+	c.resTypes, c.resObjs, c.inReturn = savedTypes, savedObjs, savedIn
+	ferr := c.fresh(fmt.Sprintf("foreach%d_err", n), SBool)
+	done := head.clone()
+	done.pc = c.pcAnd(head, not(more))
+	c.assume(done, not(ferr))
+	exits := []*State{done}
+	for i, rs := range capSt {
+		var e string = "false"
+		if len(capVals[i]) == 1 {
+			if sv, ok := capVals[i][0].(SV); ok && sv.S.K == KBool {
+				e = sv.T
+			}
+		}
+		cont := rs.clone()
+		cont.pc = c.pcAnd(rs, not(e))
+		if cont.pc != "false" {
+			for k, inv := range spec.Invariants {
+				g := c.evalClause(cont, inv, nil)
+				c.obligeNamed(cont, fmt.Sprintf("inv-step.foreach%d.%d", n, k+1), "inv-step", pos, g, "callback invariant preserved: "+inv.Text)
+			}
+		}
+		ex := rs.clone()
+		ex.pc = c.pcAnd(rs, e)
+		c.assume(ex, ferr)
+		exits = append(exits, ex)
+	}
+	m := c.mergeStates(exits, fmt.Sprintf("fx%d", n))
+	if m != nil {
+		*st = *m
+	}
+	return []Val{SV{ferr, SBool, false}}
 }
